@@ -22,7 +22,7 @@ from ..tlc import MachineryError
 SPEC_DIR = tlc.SPEC / "concat"
 ALL_DEV = ["RenameKeepsLabel", "WsRemoveKeepsChild", "HoleRemovalKeepsObjectRows", "HoleRemovalKeepsGroupChild",
            "StalePgIdCache", "EmptyTableRaises", "TableByLabel",
-           "CopySharesRecords", "PlainChildNotUnlinked", "UngroupedDataNotLoaded", "FailedCreateKeepsKey", "HoleRemovalKeepsEmptyPgRow"]
+           "CopySharesRecords", "PlainChildNotUnlinked", "UngroupedDataNotLoaded", "FailedCreateKeepsKey", "HoleRemovalKeepsEmptyPgRow", "CopyTypesPurged"]
 # (cfg, format version, number of paths replayed: None = the complete path cover, n = seeded sample)
 EXPORTS = {"quick": [("DrillholeConcatExportFlags.cfg", 21, None), ("DrillholeConcatExportRound3.cfg", 21, 350),
                      ("DrillholeConcatExportText.cfg", 21, 250),
@@ -39,7 +39,7 @@ SINGLE_NEG = {"RenameKeepsLabel": "ReadBackOK", "WsRemoveKeepsChild": "KeysMatch
               "StalePgIdCache": "PgCacheFresh", "EmptyTableRaises": "TableOK", "TableByLabel": "TableOK",
               "CopySharesRecords": "NeverBroken", "PlainChildNotUnlinked": "PlainChildClean",
               "UngroupedDataNotLoaded": "RowsOwnedLive", "FailedCreateKeepsKey": "OneRecordEach",
-              "HoleRemovalKeepsEmptyPgRow": "RowsOwnedLive"}
+              "HoleRemovalKeepsEmptyPgRow": "RowsOwnedLive", "CopyTypesPurged": "CopiesReadable"}
 NEGATIVE = [("DrillholeConcatAsBuilt.cfg", None)]
 JENV = {"JAVA_TOOL_OPTIONS": "-Xss64m"}  # Populate composes ~10 operators: deep lazy evaluation
 
@@ -295,7 +295,7 @@ def run(tier, seed):
         shutil.rmtree(work, ignore_errors=True)
     need = {"AddHole", "AddDepthData", "AddIntervalData", "SetValues", "Rename", "RemoveDataViaParent", "RemoveDataViaWorkspace",
             "RemoveHoleViaParent", "RemoveHoleViaWorkspace", "RemovePropertyGroup", "AddValuesToTable", "Reopen", "CopyGroup",
-            "Protect", "SaveHoleAgain", "SetPublic", "RemovePlainChild", "CopyEdit", "AddObjectData", "AddBadData", "ReopenRemoveHole"}
+            "Protect", "SaveHoleAgain", "SetPublic", "RemovePlainChild", "CopyEdit", "CopyPurge", "AddObjectData", "AddBadData", "ReopenRemoveHole"}
     if need - set(acts_seen):
         raise MachineryError(f"actions never replayed: {sorted(need - set(acts_seen))}")
     if replayed_steps < 1000:
